@@ -523,7 +523,7 @@ func onceStorm(r *rep.Report, rounds int) {
 func TestC20(t *testing.T) {
 	r := rep.New(t, "C20")
 	defer r.Flush()
-	r.Rule("sequential: PRNG operation sequences (3-40 ops) over the full method sets of Slice, Set, Map (value types int, string, pointer, zero-size struct) and the emitter, each result compared with a reference model, caller-owned slices with spare capacity overwritten after the call; concurrent: recorded histories of 2-8 goroutines x <=6 ops with unique written values checked by porcupine (Map and Set partitioned per key, Slice as one sequence), Once under concurrent emits, 16-goroutine id storms; distinct = distinct operation-name sequences / distinct call-order signatures with at least one overlapping pair")
+	r.Rule("sequential: PRNG operation sequences (3-40 ops) over the full method sets of Slice, Set, Map (value types int, string, pointer, zero-size struct) and the emitter, each result compared with a reference model, caller-owned slices with spare capacity overwritten after the call; concurrent: recorded histories of 2-8 goroutines x <=6 ops with unique written values checked by porcupine (Map and Set partitioned per key, Slice as one sequence), Once under concurrent emits, 16-goroutine id storms; gate lane: each Map operation held in its slow path (hook map.slowPath) across a promotion of the dirty map; distinct = distinct operation-name sequences / distinct call-order signatures with at least one overlapping pair")
 	r.Assume("RemoveListener of a function registered several times may remove any one registration (every choice is tracked); listeners are distinct top-level functions because the emitter identifies a listener by its code pointer")
 	nseq := r.N(12000, 600000)
 	runSeq(r, "Slice", nseq, seqSlice, 201)
@@ -543,6 +543,22 @@ func TestC20(t *testing.T) {
 		return seqMap(rng, n, mapDriver[struct{}]{"zero-size", func(i int) struct{} { return struct{}{} }})
 	}, 207)
 
+	if r.Lane == 0 {
+		for k := 0; k < r.N(8, 400); k++ {
+			for _, op := range mapSlowOps {
+				key, msg, held := mapSlowPathVsPromotion(r, op)
+				r.Case("map-slow-path-vs-promotion/"+op, held)
+				if held {
+					r.Obs("gate:map_operation_held_in_slow_path_across_promotion", 1)
+				} else {
+					r.Obs("gate:map_slow_path_not_reached:"+op, 1)
+				}
+				if key != "" {
+					r.Violation(key, msg, map[string]string{"lane": "map operation held before its lock while the dirty map is promoted", "op": op})
+				}
+			}
+		}
+	}
 	nh := r.N(4000, 200000)
 	checkHistories(r, "Map", nh, mapModel, concMapHistory, 210)
 	checkHistories(r, "Set", nh/2, setModel, concSetHistory, 211)
